@@ -9,7 +9,7 @@ requires), all present arbitrary dat_r. Per-cycle oracle built from memory_map.w
 import random
 
 from vmon import env  # noqa: F401
-from vmon.simkit import Top, Mon, simulate, bits, biased_bits, spell_features
+from vmon.simkit import Top, Mon, simulate, bits, biased_bits, spell_features, new_map
 
 from amaranth import Value
 from amaranth.lib.wiring import flipped
@@ -64,7 +64,7 @@ def run_subword(case, rng):
         s_aw = rng.choice([0, 1, 1, gbits - 1]) if gbits > 1 else 0
         sub = wishbone.Interface(addr_width=s_aw, data_width=gran, granularity=gran,
                                  features={f for f in dfeat if rng.random() < 0.5}, path=(f"b{i}",))
-        sub.memory_map = MemoryMap(addr_width=max(1, s_aw), data_width=gran)
+        sub.memory_map = new_map(addr_width=max(1, s_aw), data_width=gran)
         try:
             dec.add(sub, sparse=True)
             subs.append(sub)
@@ -134,7 +134,7 @@ def run_case(case):
             continue
         sub = wishbone.Interface(addr_width=s_aw, data_width=s_dw, granularity=s_gran, features=spell_features(rng, sfeat),
                                  path=(f"s{i}",))
-        sub.memory_map = MemoryMap(addr_width=s_map_aw, data_width=s_gran)
+        sub.memory_map = new_map(addr_width=s_map_aw, data_width=s_gran)
         if rng.random() < 0.35:
             # what a peripheral's or nested decoder's own port is: the flipped view of the interface (same signals)
             sub = flipped(sub)
